@@ -1133,12 +1133,14 @@ func compileNumberForStmt(context *funcContext, stmt *ast.NumberForStmt) { // {{
 
 	reg = context.RegTop()
 	rstep := context.RegisterLocalVar("(for step)")
-	if stmt.Step == nil {
-		stmt.Step = &ast.NumberExpr{Value: "1"}
-		stmt.Step.SetLine(sline(stmt.Init))
+	step := stmt.Step
+	if step == nil {
+		// the default step is a node of this compilation: the tree given by the caller is only read
+		step = &ast.NumberExpr{Value: "1"}
+		step.SetLine(sline(stmt.Init))
 	}
 	ecupdate(ec, ecLocal, rstep, 0)
-	compileExpr(context, reg, stmt.Step, ec)
+	compileExpr(context, reg, step, ec)
 
 	code.AddASbx(OP_FORPREP, rindex, 0, sline(stmt))
 
@@ -1372,8 +1374,9 @@ func constFold(context *funcContext, exp ast.Expr, level int) ast.Expr { // {{{
 			return expr
 		}
 	case *ast.UnaryMinusOpExpr:
-		expr.Expr = constFold(context, expr.Expr, level+1)
-		if value, ok := lnumberValue(expr.Expr); ok {
+		// the folded operand is not stored in the node (the tree given by the caller is only read):
+		// it differs from expr.Expr only if it is a constant, and then the whole expression is one
+		if value, ok := lnumberValue(constFold(context, expr.Expr, level+1)); ok {
 			return &constLValueExpr{Value: LNumber(-value)}
 		}
 		return expr
